@@ -54,9 +54,12 @@ def expected_files(mt, base):
     out = set()
     for t in mt.values():
         d = '/'.join(t.slug.split(':'))
-        out.add(f'{d}/{t.key}.run_info.yaml')
-        out.add(f'{d}/{t.key}.log')
         ext = model.EXT[t.kind]
+        # release 1.4.0 names run info and log after the STEM of the data path: for extension-less results (directories,
+        # in-memory tasks) a dotted key (name mode: config 'exp.v2') loses its last dotted part there
+        stem = t.key if ext else (t.key.rsplit('.', 1)[0] if '.' in t.key else t.key)
+        out.add(f'{d}/{stem}.run_info.yaml')
+        out.add(f'{d}/{stem}.log')
         if t.kind == 'memory':
             continue
         if ext:
